@@ -432,9 +432,9 @@ def oracle(ck, case, obs):
         elif nnodes > 0 and validated:
             ck.fail("C10:axis-without-coordinate", f"axis {a['name']} has no numeric fixed-shape node property", small, a, None)
     # pass-through
-    want_axes = intended_axes(case)
+    want_axes = intended_axes(case) if lists_well_formed(case) else None
     got_axes = None if attrs.get("axes") is None else [{k: a.get(k) for k in AXIS_PASS} for a in attrs["axes"]]
-    if (got_axes or None) != (want_axes or None) and lists_well_formed(case):
+    if lists_well_formed(case) and (got_axes or None) != (want_axes or None):
         dropped = got_axes is not None and want_axes is not None and [a["name"] for a in got_axes] == [a["name"] for a in want_axes]
         ck.fail("C10:axis-fields-changed" if dropped else "C10:axes-changed",
                 "caller-supplied axis name/type/unit/scale/scaled_unit/offset not stored unchanged", small, got_axes, want_axes)
@@ -568,24 +568,73 @@ def gen_md(rng, g, axis_names, directed, want_axes=True):
     return md
 
 
+UNIT_POOL = ["micrometer", "pixel", "second", "millimeter"]          # every axis_* list draws from its own pool,
+SCALED_UNIT_POOL = ["nanometer", "meter", "minute"]                  # so that swapped lists are visible
+SCALE_POOL = [0.5, 2.0, 3.25, 8.0]
+OFFSET_POOL = [-1.5, 4.0, 10.0, 0.75]
+TYPE_POOL = ["space", "time", "channel"]
+
+
 def gen_lists(rng, names, malformed=False):
     n = len(names)
     ls = {"names": list(names)}
+
+    def some(pool, p_none=0.25):
+        return [None if rng.random() < p_none else rng.choice(pool) for _ in range(n)]
     if rng.random() < 0.6:
-        ls["units"] = [rng.choice(["micrometer", "pixel", None, "second"]) for _ in range(n)]
+        ls["units"] = some(UNIT_POOL)
     if rng.random() < 0.6:
-        ls["types"] = [rng.choice(["space", "time", None]) for _ in range(n)]
-    if rng.random() < 0.5:
-        ls["scales"] = [rng.choice([0.5, 2.0, None, 1.0]) for _ in range(n)]
+        ls["types"] = some(TYPE_POOL)
+    if rng.random() < 0.6:
+        ls["scales"] = some(SCALE_POOL)
         if rng.random() < 0.5:
-            ls["scaled_units"] = [("nanometer" if s is not None and rng.random() < 0.7 else None) for s in ls["scales"]]
-    if rng.random() < 0.5:
-        ls["offset"] = [rng.choice([0.0, -1.5, None, 4.0]) for _ in range(n)]
+            ls["scaled_units"] = [(rng.choice(SCALED_UNIT_POOL) if sc is not None and rng.random() < 0.7 else None) for sc in ls["scales"]]
+    if rng.random() < 0.6:
+        ls["offset"] = some(OFFSET_POOL)
     if malformed:
         k = rng.choice(["units", "types", "scales", "offset", "offset"])
         cur = ls.get(k) or [None] * n
         ls[k] = cur[:-1] if (rng.random() < 0.5 and cur) else cur + [None if k != "offset" else 1.0]
     return ls
+
+
+def override_cases():
+    """every backend writer x every subset of the axis_* override lists (all entries given, every list with its
+    own values), with axis_names and - for spatial-graph - also with the names taken from the metadata"""
+    import itertools
+
+    names = ["y", "x"]
+    full = {"units": ["micrometer", "pixel"], "types": ["time", "space"], "scales": [0.5, 3.25],
+            "scaled_units": ["nanometer", "minute"], "offset": [-1.5, 10.0]}
+    nodes = [{"name": "y", "kind": "fixed", "dtype": "float64", "trail": [], "values": [1.0, 3.0, -2.5], "missing": None},
+             {"name": "x", "kind": "fixed", "dtype": "float64", "trail": [], "values": [5.0, 2.0, 0.25], "missing": None}]
+    g = {"ids": [4, 7, 9], "edges": [[4, 7], [7, 9]], "id_dtype": "uint64", "nprops": nodes,
+         "eprops": [{"name": "w", "kind": "fixed", "dtype": "int64", "trail": [], "values": [3, 4], "missing": None}]}
+    sgg = {"ids": [4, 7, 9], "edges": [[4, 7], [7, 9]], "id_dtype": "uint64",
+           "nprops": [{"name": "position", "kind": "fixed", "dtype": "float64", "trail": [2], "values": [1.0, 5.0, 3.0, 2.0, -2.5, 0.25], "missing": None},
+                      {"name": "r", "kind": "fixed", "dtype": "float32", "trail": [], "values": [1.0, 2.0, 3.0], "missing": None}],
+           "eprops": [{"name": "w", "kind": "fixed", "dtype": "int16", "trail": [], "values": [3, 4], "missing": None}]}
+    md = {"directed": True, "nprops": [], "eprops": [],
+          "axes": [{"name": "y", "type": "channel", "unit": "second", "scale": 8.0, "scaled_unit": "meter", "offset": 0.75, "min": -50.0, "max": 50.0},
+                   {"name": "x", "type": "space", "unit": "millimeter", "scale": 2.0, "offset": 4.0}]}
+    out = []
+    keys = list(full)
+    for r in range(len(keys) + 1):
+        for sub in itertools.combinations(keys, r):
+            ls = {"names": names, **{k: full[k] for k in sub}}
+            for entry in ("nx", "rx", "sg"):
+                for with_md in (False, True):
+                    c = {"entry": entry, "fmt": 2, "directed": entry != "nx", "graph": copy.deepcopy(sgg if entry == "sg" else g),
+                         "lists": copy.deepcopy(ls)}
+                    if entry == "sg":
+                        c["ndims"] = 2
+                    if with_md:
+                        c["md"] = copy.deepcopy(md)
+                    out.append(c)
+            # spatial-graph: names from the metadata, lists as overrides
+            out.append({"entry": "sg", "fmt": 3, "directed": False, "ndims": 2, "graph": copy.deepcopy(sgg), "md": copy.deepcopy(md),
+                        "lists": {"names": None, **{k: copy.deepcopy(full[k]) for k in sub}}})
+    return out
 
 
 def random_case(rng, entry, big=False, malformed=False):
@@ -841,7 +890,8 @@ def run(ck: common.Check):
                "properties (8 dtypes, 2-D, var-length, missing masks, float16); caller metadata with absent / stale / "
                "wrong-dtype property entries, unit/name/description, axes with every optional field and stale ranges, extra, "
                "sphere, ellipsoid, track props, related objects, display hints; axis_* lists with and without overrides and a "
-               "malformed stream (wrong list lengths). non-trivial = non-empty graph or caller metadata; distinct = "
+               "malformed stream (wrong list lengths); every backend writer x every subset of the axis_* override lists (each "
+               "list with its own values, with/without metadata, spatial-graph also with names from the metadata). non-trivial = non-empty graph or caller metadata; distinct = "
                "distinct case JSON")
     version, rdef = geff_version(), rest_default()
     cases = list(corpus())
@@ -853,19 +903,30 @@ def run(ck: common.Check):
         cases.append(random_case(ck.rng, "sg", big=(i % 15 == 0)))
     for i in range(per // 3):
         cases.append(random_case(ck.rng, ck.rng.choice(["nx", "rx", "sg"]), malformed=True))
+    cases += override_cases()
     warm_sg()
     obs = common.pmap(run_impl, cases, chunksize=8)
     drv = ck.driver()
     reqs, scales = [], []
     for c, o in zip(cases, obs):
-        rq, d = model_request(c, o, version)
+        try:
+            rq, d = model_request(c, o, version)
+        except Exception as ex:  # noqa: BLE001
+            ck.corr_broken("C10:request-exception", c, {k: o.get(k) for k in ("exc", "msg")}, f"{type(ex).__name__}: {ex}")
+            rq, d = {"op": "unmodelled-request"}, 1
         reqs.append(rq)
         scales.append(d)
     model = drv.ask(reqs)
     if model is None:
         ck.broken.append({"what": "driver Drivers/C10.lean", "detail": drv.broken})
     for i, (c, o) in enumerate(zip(cases, obs)):
-        judge(ck, c, o, None if model is None else model[i], scales[i], rdef)
+        try:
+            judge(ck, c, o, None if model is None else model[i], scales[i], rdef)
+        except Exception as ex:  # noqa: BLE001  (an exception of the oracle is a broken check, never a silent pass or a crash)
+            import traceback
+
+            ck.corr_broken("C10:oracle-exception", c, {k: o.get(k) for k in ("exc", "msg", "attrs")},
+                           f"{type(ex).__name__}: {ex}\n{traceback.format_exc()[-800:]}")
     # function-level stream
     fcases = [fn_case(ck.rng) for _ in range(per)]
     fobs = [run_fn(c) for c in fcases]
@@ -874,7 +935,10 @@ def run(ck: common.Check):
     if fmodel is None:
         ck.broken.append({"what": "driver Drivers/C10.lean (function stream)", "detail": drv.broken})
     for i, (c, o) in enumerate(zip(fcases, fobs)):
-        judge_fn(ck, c, o, None if fmodel is None else fmodel[i], freq[i][1])
+        try:
+            judge_fn(ck, c, o, None if fmodel is None else fmodel[i], freq[i][1])
+        except Exception as ex:  # noqa: BLE001
+            ck.corr_broken("C10:oracle-exception", c, {k: o.get(k) for k in ("exc", "msg", "axes")}, f"{type(ex).__name__}: {ex}")
     ck.assumptions += [
         "numpy min/max/boolean indexing, zarr attribute and array storage, pydantic validation/serialisation are "
         "modelled, exercised here, not verified",
